@@ -247,9 +247,15 @@ def symmetry_case(b, l, r, args):
         if same_position_inserts(to_plain(diff_notebooks(b, l)), to_plain(diff_notebooks(b, r))):
             return [], False
         m1, d1 = merge_notebooks(copy.deepcopy(b), copy.deepcopy(l), copy.deepcopy(r), args)
-        m2, d2 = merge_notebooks(copy.deepcopy(b), copy.deepcopy(r), copy.deepcopy(l), args)
+        # a strategy that names a side (use-local / use-remote) is swapped together with the roles
+        sw = {'use-local': 'use-remote', 'use-remote': 'use-local'}
+        args2 = copy.copy(args)
+        args2.merge_strategy = sw.get(args.merge_strategy, args.merge_strategy)
+        args2.input_strategy = sw.get(args.input_strategy, args.input_strategy)
+        args2.output_strategy = sw.get(args.output_strategy, args.output_strategy)
+        m2, d2 = merge_notebooks(copy.deepcopy(b), copy.deepcopy(r), copy.deepcopy(l), args2)
     except Exception as exc:
-        return [('C05', 'crash:' + exc_site(exc), 'merge raised ' + exc_summary(exc))], True
+        return [], False          # crashes are C03's business
     c1 = any(d.conflict for d in d1)
     c2 = any(d.conflict for d in d2)
     out = []
